@@ -582,8 +582,9 @@ class Program:
         if isinstance(e, ast.Name):
             if env is not None and e.id in env:
                 return env[e.id]
-            if cls is not None and e.id in cls.attrs:
+            if cls is not None and e.id in cls.attrs and cls.attrs[e.id] is not e and not any(x is e for x in ast.walk(cls.attrs[e.id])):
                 return self.fold(cls.module, cls.attrs[e.id], cls=cls)
+            # (a name inside the defining expression of the class attribute of the same name -- `X = X` in a class body -- is the module-level X)
             if e.id in ("True", "False", "None"):
                 return {"True": True, "False": False, "None": None}[e.id]
             return self.fold_name(m, e.id)
